@@ -90,13 +90,19 @@ class Gen:
                         out.append(pad + "match $f%d.Finished()" % self.nvar)
                 elif form < 0.85 and self.has("activate"):
                     out.append(pad + "activate %s" % c)
+                elif self.has("groups") and self.has("actions") and self.r.random() < 0.4:
+                    # a flow and an action in one group: the action lives in the scope of the group only
+                    out.append(pad + "await %s %s %s(x=%d)" % (c, self.r.choice(["or", "or", "and"]), self.r.choice(ACTIONS), self.r.randint(1, 2)))
                 elif self.has("groups") and len(avail) >= 2:
                     a, b = self.r.sample(avail, 2)
                     out.append(pad + "await %s %s %s" % (a, self.r.choice(["and", "or"]), b))
                 else:
                     out.append(pad + "await %s" % c)
             elif k < 0.66 and depth > 0 and self.has("when"):
-                out.append(pad + "when " + (self.ev() if not avail or self.r.random() < 0.6 else self.callee(avail)))
+                if self.has("actions") and self.r.random() < 0.2:
+                    out.append(pad + "when %s(x=%d)" % (self.r.choice(ACTIONS), self.r.randint(1, 2)))
+                else:
+                    out.append(pad + "when " + (self.ev() if not avail or self.r.random() < 0.6 else self.callee(avail)))
                 out += self.stmts(indent + 1, depth - 1, avail, in_loop, n=self.r.randint(1, 2))
                 if self.r.random() < 0.6:
                     out.append(pad + "or when " + self.ev())
